@@ -43,12 +43,14 @@ def descriptors(seed, tier):
     # a block repeated after a gap of fresh bytes: every encoding limit +-3, match lengths at the limits
     for gap in GAPS:
         for ln in LENS:
-            if q and gap > 0x1000 and ln not in (3, 4, 34, 35, 258, 259):
-                continue
-            out.append(('far', gap, ln, 0))
+            # variant 1: the gap is a run that itself compresses to a few tokens (cheap for the interpreted compressor);
+            # variant 0: the gap is fresh random bytes (one literal token per byte)
+            out.append(('far', gap, ln, 1))
+            if gap <= 0x1000 or (not q) or (ln in (4, 35, 258) and gap in (0x407F, 0x4080, 0x4081)):
+                out.append(('far', gap, ln, 0))
     for gap in GAPS:
         if gap >= 6:
-            out.append(('far3', gap, 40))
+            out.append(('far3', gap, 40, 1))
     # random text over small alphabets
     rng = random.Random('C12:desc:%s' % seed)
     n_small = 21000 if q else 1400000
@@ -56,17 +58,17 @@ def descriptors(seed, tier):
         k = rng.choice([1, 2, 2, 3, 3, 4, 5, 8, 16])
         n = rng.choice([6, 7, 8, 9, 10, 12, 16, 20, 24, 33, 40, 64, 100]) if rng.random() < 0.9 else rng.randint(100, 700)
         out.append(('rand', k, n, i))
-    n_mid = 300 if q else 6000
+    n_mid = 200 if q else 6000
     for i in range(n_mid):
         k = rng.choice([2, 3, 4, 16, 64, 256])
         n = rng.randint(700, 4000 if k < 16 else 12000)
         out.append(('rand', k, n, 10 ** 7 + i))
-    n_text = 40 if q else 1500
+    n_text = 24 if q else 1500
     for i in range(n_text):
         out.append(('text', rng.choice([500, 2000, 8000, 20000, 30000] if q else [2000, 20000, 60000, 100000]), i))
-    n_large = 6 if q else 500
+    n_large = 3 if q else 500
     for i in range(n_large):
-        out.append(('large', rng.choice([256, 256, 200]), rng.choice([40000, 70000, 100000] if q else [100000, 300000, 1048576]), i))
+        out.append(('large', rng.choice([256, 256, 200]), rng.choice([40000, 100000] if q else [100000, 300000, 1048576]), i))
     return out
 
 
@@ -85,9 +87,13 @@ def materialise(d, seed):
         unit = bytes(rng.randrange(k) + (97 if k < 10 else 0) for _ in range(p))
         return [(unit * (n // p + 1))[:n]]
     if kind in ('far', 'far3'):
-        gap, ln = d[1], d[2]
+        gap, ln, variant = d[1], d[2], d[3]
         a = bytes(rng.randrange(0, 128) for _ in range(ln))
-        filler = bytes(rng.randrange(128, 256) for _ in range(gap))
+        if variant == 0:
+            filler = bytes(rng.randrange(128, 256) for _ in range(gap))
+        else:
+            unit = bytes(rng.randrange(128, 256) for _ in range(rng.choice([1, 2, 5])))
+            filler = (unit * (gap // len(unit) + 1))[:gap]
         pre = bytes(rng.randrange(128, 256) for _ in range(rng.choice([0, 1, 5, 8])))
         if kind == 'far':
             tail = bytes(rng.randrange(128, 256) for _ in range(rng.choice([0, 0, 1, 7])))
@@ -195,6 +201,87 @@ def extract(mirror, out):
     return 0
 
 
+class Child:
+    """The sanitizer side: a child process (LD_PRELOAD=libasan, PYTHONMALLOC=malloc) that loads the harness and
+    decompresses every (compressed, n) pair it is sent.  A sanitizer abort kills only the child."""
+
+    def __init__(self, spec):
+        self.spec = spec
+        self.p = None
+
+    def start(self):
+        import subprocess
+        env = dict(os.environ)
+        env.update(self.spec['san_env'])
+        # UBSan of a combined ASan+UBSan build reports on fd 2 only: keep it next to the ASan log files
+        self.n = getattr(self, 'n', 0) + 1
+        err = open(os.path.join(self.spec['san_logdir'], 'ubsan.stderr.%d.%d' % (os.getpid(), self.n)), 'wb')
+        self.p = subprocess.Popen([sys.executable, '-m', 'props.C12_worker', 'decomp', self.spec['harness_dir']],
+                                  stdin=subprocess.PIPE, stdout=subprocess.PIPE, stderr=err, env=env)
+        err.close()
+
+    def ask(self, data, comp, timeout=180):
+        """-> dict from the child, or {'died': rc} / {'hang': True}"""
+        import select
+        import struct
+        if self.p is None or self.p.poll() is not None:
+            self.start()
+        try:
+            self.p.stdin.write(struct.pack('<QQ', len(data), len(comp)) + data + comp)
+            self.p.stdin.flush()
+        except (BrokenPipeError, OSError):
+            rc = self.p.wait()
+            self.p = None
+            return {'died': rc}
+        r, _, _ = select.select([self.p.stdout], [], [], timeout)
+        if not r:
+            self.p.kill()
+            self.p.wait()
+            self.p = None
+            return {'hang': True}
+        line = self.p.stdout.readline()
+        if not line:
+            rc = self.p.wait()
+            self.p = None
+            return {'died': rc}
+        return json.loads(line)
+
+    def close(self):
+        if self.p is not None and self.p.poll() is None:
+            try:
+                self.p.stdin.close()
+                self.p.wait(timeout=30)
+            except Exception:
+                self.p.kill()
+
+
+def decomp(harness_dir):
+    """child main loop (runs under ASan/UBSan)"""
+    import struct
+    sys.path.insert(0, harness_dir)
+    import c12_lzss_harness as H
+    inp, out = sys.stdin.buffer, sys.stdout.buffer
+    while True:
+        h = inp.read(16)
+        if len(h) < 16:
+            return 0
+        n, cl = struct.unpack('<QQ', h)
+        data = inp.read(n)
+        comp = inp.read(cl)
+        c_out, c_used = H.raw(comp, n)
+        rec = {'used': c_used, 'equal': c_out == data, 'diff': None, 'full': 'ok'}
+        if c_out != data:
+            rec['diff'] = first_diff(c_out, data)
+        try:
+            f_out = H.full(comp, n)
+            if f_out != data:
+                rec['full'] = 'differs'
+        except RuntimeError as e:
+            rec['full'] = 'error: %s' % e
+        out.write(json.dumps(rec).encode() + b'\n')
+        out.flush()
+
+
 def run(specfile):
     spec = json.load(open(specfile))
     import Cython.LZSS as LZ
@@ -208,8 +295,7 @@ def run(specfile):
     if not ok:
         emit({'fatal': 'Cython.LZSS not loaded from the mirror: %r' % LZ.__file__})
         return 3
-    sys.path.insert(0, spec['harness_dir'])
-    import c12_lzss_harness as H
+    child = Child(spec)
     descs = descriptors(spec['seed'], spec['tier'])
     for p in spec.get('files', []):
         descs.append(('file', p))
@@ -217,7 +303,7 @@ def run(specfile):
         descs.append(('hex', h))
     pfd = os.open(spec['progress'], os.O_WRONLY | os.O_CREAT, 0o644)
     st = {'cases': 0, 'bytes_in': 0, 'bytes_out': 0, 'stats': {}, 'by_kind': {}, 'distinct_with_backref': 0,
-          'samples': [], 'maxsize': 0}
+          'samples': [], 'maxsize': 0, 'child_aborts': 0}
     start = spec.get('start', [0, 0])
     nch, ch = spec['nchunks'], spec['chunk']
     for di in range(ch, len(descs), nch):
@@ -258,29 +344,48 @@ def run(specfile):
                     problems.append(('compressor:stream-length', 'reference decoder consumed %d of %d compressed bytes' % (r_used, len(comp))))
             except lzss_ref.BadStream as e:
                 problems.append(('compressor:bad-stream', str(e)))
-            # the real C decompressor on exact-size heap blocks
-            if True:
-                c_out, c_used = H.raw(comp, n)
-                if c_out != data:
+            # the real C decompressor on exact-size heap blocks, in the sanitizer child
+            c = child.ask(data, comp)
+            rec_extra = {}
+            if 'died' in c or 'hang' in c:
+                st['child_aborts'] += 1
+                logs = []
+                import glob
+                for lp in sorted(glob.glob(os.path.join(spec['san_logdir'], '*san.*'))):
+                    try:
+                        t = open(lp, errors='replace').read()[:4000]
+                        os.unlink(lp)
+                        if t.strip():
+                            logs.append(t)
+                    except OSError:
+                        pass
+                rec_extra = {'abort': c, 'logs': logs}
+                problems.append(('ABORT', 'sanitizer child %s' % c))
+                if st['child_aborts'] > spec.get('max_aborts', 150):
+                    emit({'problem': problems, 'desc': list(d), 'sub': si, 'n': n, 'abort': c,
+                          'data_hex': data.hex() if n <= 70000 else None, 'comp_hex': comp.hex() if len(comp) <= 70000 else None})
+                    emit({'fatal': 'more than %d sanitizer aborts in one worker' % spec.get('max_aborts', 150)})
+                    return 5
+            else:
+                side = 'decompressor' if not problems else 'both'
+                if not c['equal']:
                     toks = toks or decode_tokens(comp, n)
-                    side = 'decompressor' if not problems else 'both'
-                    problems.append(('%s:wrong-output:%s' % (side, token_at(toks, first_diff(c_out, data))),
-                                     'C decompressor output differs from the input at byte %d' % first_diff(c_out, data)))
-                elif c_used != len(comp):
-                    problems.append(('decompressor:consumed-length' if not problems else 'both:consumed-length',
-                                     'C decompressor consumed %d of %d compressed bytes' % (c_used, len(comp))))
-                try:
-                    f_out = H.full(comp, n)
-                    if f_out != data and c_out == data:
-                        problems.append(('decompressor:wrapper-output', '__Pyx_DecompressString_LZSS returned other bytes'))
-                except RuntimeError as e:
-                    if c_used == len(comp):
-                        problems.append(('decompressor:wrapper-error', '__Pyx_DecompressString_LZSS raised %s' % e))
+                    problems.append(('%s:wrong-output:%s' % (side, token_at(toks, c['diff'])),
+                                     'C decompressor output differs from the input at byte %d' % c['diff']))
+                elif c['used'] != len(comp):
+                    problems.append(('%s:consumed-length' % side, 'C decompressor consumed %d of %d compressed bytes' % (c['used'], len(comp))))
+                if c['full'] == 'differs' and c['equal']:
+                    problems.append(('decompressor:wrapper-output', '__Pyx_DecompressString_LZSS returned other bytes'))
+                elif c['full'].startswith('error') and c['used'] == len(comp):
+                    problems.append(('decompressor:wrapper-error', '__Pyx_DecompressString_LZSS raised %s' % c['full']))
             if problems:
-                emit({'problem': problems, 'desc': list(d), 'sub': si, 'n': n,
-                      'data_hex': data.hex() if n <= 70000 else None, 'comp_hex': comp.hex() if len(comp) <= 70000 else None})
+                rec = {'problem': problems, 'desc': list(d), 'sub': si, 'n': n,
+                       'data_hex': data.hex() if n <= 70000 else None, 'comp_hex': comp.hex() if len(comp) <= 70000 else None}
+                rec.update(rec_extra)
+                emit(rec)
             elif len(st['samples']) < 3 and 8 <= n <= 40 and comp and len(comp) < n:
-                st['samples'].append({'input': repr(data), 'compressed_hex': comp.hex(), 'consumed': c_used})
+                st['samples'].append({'input': repr(data), 'compressed_hex': comp.hex(), 'consumed': c['used']})
+    child.close()
     os.pwrite(pfd, b'%10d %10d' % (len(descs), 0), 0)
     emit({'done': True, 'summary': st, 'ndesc': len(descs)})
     out.close()
@@ -290,6 +395,8 @@ def run(specfile):
 if __name__ == '__main__':
     if sys.argv[1] == 'extract':
         rc = extract(sys.argv[2], sys.argv[3])
+    elif sys.argv[1] == 'decomp':
+        rc = decomp(sys.argv[2])
     else:
         rc = run(sys.argv[2])
     sys.stdout.flush()
